@@ -472,6 +472,54 @@ def c08_show_filters_task(_):
         s.cleanup()
 
 
+def c08_tiny_task(_):
+    """Very small logs (0..6 bytes per stream, newline-terminated): stored exactly, and `log show` prints
+    one header per non-empty log followed by its bytes."""
+    s = sc.Scratch("c08tiny")
+    try:
+        sizes = [0, 1, 2, 3, 4, 5, 6]
+        ts = [{"path": "t%d" % i} for i in range(len(sizes))]
+        r = sc.Repo(s, "r", ts, commands={t["path"]: {"build": "x"} for t in ts}, init_git=False)
+        want = {}
+        for i, t in enumerate(ts):
+            so = ("abcdefgh"[:max(0, sizes[i] - 1)] + "\n").encode() if sizes[i] else b""
+            k = sizes[(i + 3) % len(sizes)]
+            se = ("ABCDEFGH"[:max(0, k - 1)] + "\n").encode() if k else b""
+            lines = (["out " + so.hex()] if so else []) + (["err " + se.hex()] if se else []) + ["exit 0"]
+            r.set_script(t["path"], "build", lines)
+            want[("stdout.zst", t["path"], "build")] = so
+            want[("stderr.zst", t["path"], "build")] = se
+        res = r.mr("run", "-c", "build", env=r.trace_env())
+        doc = res.json()
+        if res.code != 0 or doc is None:
+            return {"judged": 1, "v": [("e2e-run-failed", "tiny logs: exit %s %s" % (res.code, res.err[:200]), {"cli_c08_tiny": 1})]}
+        v = []
+        for (f, t, c), w in want.items():
+            p_ = os.path.join(doc["out"]["run"]["path"], c, doc["out"]["run"]["targets"][t], f)
+            try:
+                got = sc.zstd_cat(p_)
+            except Exception as e:
+                v.append(("e2e-undecodable", "tiny log %s of %s: %s" % (f, t, str(e)[:120])))
+                continue
+            if got != w:
+                v.append(("e2e-bytes-differ", "tiny log %s of %s: stored %r, written %r" % (f, t, got, w)))
+        judged = 1
+        for args in (["--stdout", "--stderr"], ["--stdout"], ["--stderr"]):
+            ls = r.mr("log", "show", *args)
+            judged += 1
+            got = p_hist.parse_log_show(ls.out)
+            exp = sorted((f, t, c, b) for (f, t, c), b in want.items() if b and ("--" + f.split(".")[0]) in args)
+            if ls.code != 0 or got != exp:
+                v.append(("e2e-log-show-differs", "log show %s over logs of 0..6 bytes: blocks %s, expected %s (exit %s)" % (" ".join(args), [(b[0], b[1], b[3]) for b in got], [(b[0], b[1], b[3]) for b in exp], ls.code)))
+        return {"judged": judged, "v": [(sig, d, {"cli_c08_tiny": 1}) for sig, d in v]}
+    except common.EngineError as e:
+        return {"engine_error": str(e)}
+    except Exception:
+        return {"engine_error": traceback.format_exc()[-1200:]}
+    finally:
+        s.cleanup()
+
+
 def run_slice(prop, tier):
     if prop == "C17":
         sizes = [3, 60, 400] if tier == "quick" else [3, 60, 160, 400, 1500]
@@ -487,6 +535,7 @@ def run_slice(prop, tier):
         res = common.pmap(c08_task, tasks)
         res += common.pmap(c08_repeat_task, [(how, k) for how in ("-c twice", "sequence twice", "sequence mix", "slot reuse") for k in (1, 3)])
         res += common.pmap(c08_show_filters_task, [0])
+        res += common.pmap(c08_tiny_task, [0])
     else:
         return 0, []
     errs = [r["engine_error"] for r in res if "engine_error" in r]
@@ -512,7 +561,9 @@ def merge(result, prop, tier):
 
 
 def replay_case(prop, case):
-    if "cli_c08_show" in case:
+    if "cli_c08_tiny" in case:
+        r = c08_tiny_task(0)
+    elif "cli_c08_show" in case:
         r = c08_show_filters_task(0)
     elif "cli_c08_repeat" in case:
         r = c08_repeat_task(tuple(case["cli_c08_repeat"]))
